@@ -58,8 +58,10 @@ def shrink_candidates(t, path=()):
             yield 1
 
 
-def shrink(mod, case, rounds=8, batch=150):
+def shrink(mod, case, rounds=None, batch=150):
     """greedy shrinking of a disagreeing case; keeps op and the clause of the disagreement"""
+    if rounds is None:
+        rounds = int(os.environ.get("VERIF_SHRINK_ROUNDS", "8"))
     clause = case["verdict"][1] if len(case["verdict"]) > 1 else None
     cur = case
     for _ in range(rounds):
